@@ -63,6 +63,12 @@ TASKS = [
      'spec(backward): exists X$i (p(X$i) <-> not q(X$i)).', 'p(1) :- not q(1).', 'input: q/1. output: p/1.'),
     ('spec-nested-equivalences', 'spec', 'spec: forall X ((p(X) <-> q(X)) or X != 1). spec: forall X (forall Y (p(X) <-> not q(Y)) -> X = 1). '
      'spec: (forall X (p(X) <-> X = 1)) <-> not q(1).', 'p(1) :- not q(1).', 'input: q/1. output: p/1.'),
+    ('many-conclusions', 'program', 'p(X) :- q(X). t(X) :- p(X), X > 1. u(X) :- t(X), not p(0). :- u(5).',
+     'p(X) :- q(X). t(X) :- q(X), X > 1. u(X) :- q(X), X > 1, not q(0). :- q(5), not q(0).', 'input: q/1. output: p/1. output: t/1. output: u/1.'),
+    ('no-premises-spec', 'spec', 'spec: forall X (p(X) <-> q(X)). spec: forall X (t(X) <-> q(X) and X > 0). spec: forall X (u(X) <-> t(X) or p(X)).',
+     'p(X) :- q(X). t(X) :- q(X), X > 0. u(X) :- t(X). u(X) :- p(X).', 'input: q/1. output: p/1. output: t/1. output: u/1.'),
+    ('zero-axioms-forward', 'spec', 'spec(backward): forall X (p(X) -> q(X)). spec(backward): forall X (t(X) -> q(X)).',
+     'p(X) :- q(X), X > 0. t(X) :- q(X), not p(X). :- q(X), X < -5.', 'input: q/1. output: p/1. output: t/1.'),
     ('constraint-only-right', 'program', 'p(X) :- q(X). :- q(X), X < 0.', 'p(X) :- q(X), X >= 0. :- q(X), not p(X).',
      'input: q/1. output: p/1.'),
 ]
